@@ -5,7 +5,7 @@
 (* line - the cases the real helpers are then run on, with the model's expectation.        *)
 EXTENDS IoHelpers, TLC, Json, SequencesExt
 
-CONSTANTS Family,   \* "rte" | "rte2" | "rex" | "rts" | "rtsbig" | "utf8" | "wa" | "wf" | "all"
+CONSTANTS Family,   \* "rte" | "rte5" | "rte2" | "rex" | "rts" | "rtsbig" | "utf8" | "wa" | "wf" | "all"
           L,        \* maximal script length (including the terminal item)
           GrowExtra \* further capacities reserve(32) may yield: len + 32 + x for x in GrowExtra
 
@@ -34,6 +34,10 @@ ReadScripts == {p \o <<tm>> : p \in SeqsUpTo(NT, L - 1), tm \in {EOF_, ERR(5)}}
 Case(op, s, d, i, c0, n, p) == [op |-> op, script |-> s, data |-> d, init |-> i, cap0 |-> c0, n |-> n, pieces |-> p, ff |-> 0]
 
 RteCases == {Case("read_to_end", s, IdData(Total(s)), IdInit(lc[1]), lc[2], 0, <<>>) : s \in ReadScripts, lc \in Inits}
+\* the deepest grid of the thorough tier: one more item, chunk size 2 left out
+NT5 == {C(k) : k \in ChunkSizes \ {2}} \cup {EINTR}
+ReadScripts5 == {p \o <<tm>> : p \in SeqsUpTo(NT5, L - 1), tm \in {EOF_, ERR(5)}}
+Rte5Cases == {Case("read_to_end", s, IdData(Total(s)), IdInit(lc[1]), lc[2], 0, <<>>) : s \in ReadScripts5, lc \in Inits}
 \* a second grid: other chunk sizes (partial fills on both sides of 32/64/96) and other initial
 \* (len, capacity) pairs (capacity 1, 31, 33; exact fit at 64; one byte short of full)
 ChunkSizes2 == {3, 30, 34, 63, 65, 96}
@@ -86,6 +90,7 @@ WfCases == {[Case("write_fmt", s, IdData(5), <<>>, 0, 0, p) EXCEPT !.ff = f] : s
                 p \in {<<2, 0, 3>>, <<1, 1, 1, 1, 1>>, <<5>>, <<0, 5, 0>>}, f \in {0, 1}}
 
 Cases == CASE Family = "rte" -> RteCases
+           [] Family = "rte5" -> Rte5Cases
            [] Family = "rte2" -> Rte2Cases
            [] Family = "rex" -> RexCases
            [] Family = "rts" -> RtsCases
